@@ -4,19 +4,21 @@
 #include "common.h"
 #include "xrayglob.h"
 #include "api.h"
-static void r1(const char *name, double v, xrl_error **e, int *firstp) {
-  fprintf(OUT, "%s\"%s\":[%d,", *firstp ? "" : ",", name, *e == NULL); jd(v); fputc(']', OUT); *firstp = 0; xrl_clear_error(e);
+static int bitsame(double a, double b) { return memcmp(&a, &b, 8) == 0; }
+/* third element: did the same call without an error slot return the same bits (on failure: the 0 sentinel, not a partial sum) */
+static void r1(const char *name, double v, xrl_error **e, int *firstp, double vnull) {
+  fprintf(OUT, "%s\"%s\":[%d,", *firstp ? "" : ",", name, *e == NULL); jd(v); fprintf(OUT, ",%d]", bitsame(v, vnull)); *firstp = 0; xrl_clear_error(e);
 }
-#define R(name, call) do { xrl_error *e_ = NULL; double v_ = call; r1(name, v_, &e_, &first); } while (0)
+#define R(name, call) do { xrl_error *e_ = NULL; xrl_error **E_ = &e_; double v_ = call; E_ = NULL; double w_ = call; r1(name, v_, &e_, &first, w_); } while (0)
 static void aggE(int Z, double E) {
   int first = 1; xrl_error *e = NULL; (void)e;
   fprintf(OUT, "{\"k\":\"aggE\",\"Z\":%d,\"E\":", Z); jd(E); fputs(",\"r\":{", OUT);
-  R("AtomicWeight", AtomicWeight(Z, &e_));
-  R("CS_Total", CS_Total(Z, E, &e_)); R("CS_Photo", CS_Photo(Z, E, &e_)); R("CS_Rayl", CS_Rayl(Z, E, &e_)); R("CS_Compt", CS_Compt(Z, E, &e_));
-  R("CSb_Total", CSb_Total(Z, E, &e_)); R("CSb_Photo", CSb_Photo(Z, E, &e_)); R("CSb_Rayl", CSb_Rayl(Z, E, &e_)); R("CSb_Compt", CSb_Compt(Z, E, &e_));
-  R("CS_Total_Kissel", CS_Total_Kissel(Z, E, &e_)); R("CSb_Total_Kissel", CSb_Total_Kissel(Z, E, &e_));
-  R("CS_Photo_Total", CS_Photo_Total(Z, E, &e_)); R("CSb_Photo_Total", CSb_Photo_Total(Z, E, &e_));
-  R("CS_Energy", CS_Energy(Z, E, &e_));
+  R("AtomicWeight", AtomicWeight(Z, E_));
+  R("CS_Total", CS_Total(Z, E, E_)); R("CS_Photo", CS_Photo(Z, E, E_)); R("CS_Rayl", CS_Rayl(Z, E, E_)); R("CS_Compt", CS_Compt(Z, E, E_));
+  R("CSb_Total", CSb_Total(Z, E, E_)); R("CSb_Photo", CSb_Photo(Z, E, E_)); R("CSb_Rayl", CSb_Rayl(Z, E, E_)); R("CSb_Compt", CSb_Compt(Z, E, E_));
+  R("CS_Total_Kissel", CS_Total_Kissel(Z, E, E_)); R("CSb_Total_Kissel", CSb_Total_Kissel(Z, E, E_));
+  R("CS_Photo_Total", CS_Photo_Total(Z, E, E_)); R("CSb_Photo_Total", CSb_Photo_Total(Z, E, E_));
+  R("CS_Energy", CS_Energy(Z, E, E_));
   fputs("},\"occ\":[", OUT);
   for (int s = 0; s < 31; s++) { xrl_error *e2 = NULL; double v = ElectronConfig(Z, s, &e2); fprintf(OUT, "%s[%d,", s ? "," : "", e2 == NULL); jd(v); fputc(']', OUT); xrl_clear_error(&e2); }
   fputs("],\"pb\":[", OUT);
@@ -44,10 +46,10 @@ static void aggA(int Z, double E, double th, double ph) {
   int first = 1;
   fprintf(OUT, "{\"k\":\"aggA\",\"Z\":%d,\"E\":", Z); jd(E); fputs(",\"th\":", OUT); jd(th); fputs(",\"ph\":", OUT); jd(ph); fputs(",\"r\":{", OUT);
   double q = MomentTransf(E, th, NULL);
-  R("AtomicWeight", AtomicWeight(Z, &e_)); R("MomentTransf", MomentTransf(E, th, &e_)); R("FF_Rayl", FF_Rayl(Z, q, &e_)); R("SF_Compt", SF_Compt(Z, q, &e_));
-  R("DCS_Thoms", DCS_Thoms(th, &e_)); R("DCS_KN", DCS_KN(E, th, &e_)); R("DCSP_Thoms", DCSP_Thoms(th, ph, &e_)); R("DCSP_KN", DCSP_KN(E, th, ph, &e_));
-  R("DCS_Rayl", DCS_Rayl(Z, E, th, &e_)); R("DCS_Compt", DCS_Compt(Z, E, th, &e_)); R("DCSb_Rayl", DCSb_Rayl(Z, E, th, &e_)); R("DCSb_Compt", DCSb_Compt(Z, E, th, &e_));
-  R("DCSP_Rayl", DCSP_Rayl(Z, E, th, ph, &e_)); R("DCSP_Compt", DCSP_Compt(Z, E, th, ph, &e_)); R("DCSPb_Rayl", DCSPb_Rayl(Z, E, th, ph, &e_)); R("DCSPb_Compt", DCSPb_Compt(Z, E, th, ph, &e_));
+  R("AtomicWeight", AtomicWeight(Z, E_)); R("MomentTransf", MomentTransf(E, th, E_)); R("FF_Rayl", FF_Rayl(Z, q, E_)); R("SF_Compt", SF_Compt(Z, q, E_));
+  R("DCS_Thoms", DCS_Thoms(th, E_)); R("DCS_KN", DCS_KN(E, th, E_)); R("DCSP_Thoms", DCSP_Thoms(th, ph, E_)); R("DCSP_KN", DCSP_KN(E, th, ph, E_));
+  R("DCS_Rayl", DCS_Rayl(Z, E, th, E_)); R("DCS_Compt", DCS_Compt(Z, E, th, E_)); R("DCSb_Rayl", DCSb_Rayl(Z, E, th, E_)); R("DCSb_Compt", DCSb_Compt(Z, E, th, E_));
+  R("DCSP_Rayl", DCSP_Rayl(Z, E, th, ph, E_)); R("DCSP_Compt", DCSP_Compt(Z, E, th, ph, E_)); R("DCSPb_Rayl", DCSPb_Rayl(Z, E, th, ph, E_)); R("DCSPb_Compt", DCSPb_Compt(Z, E, th, ph, E_));
   fputs("}}\n", OUT);
 }
 /* c05 <zlo> <zhi> <quick|thorough> */
